@@ -197,9 +197,14 @@ class Vfs:
 
     def isfile(self, path):
         try:
-            r, ex = self._resolve(self._abs(path))
+            p = self._abs(path)
         except TypeError:
             return False
+        # an existence test like `exists` (same event kind, same fault point): a tree may use either
+        f = self._event("exists", p)
+        if f is not None and f.get("effect") == "false":
+            return False
+        r, ex = self._resolve(p)
         return ex and self.nodes[r][0] == "f"
 
     def isdir(self, path):
